@@ -85,7 +85,20 @@ func oracleNDPair(c *Ctx, id int, body, impl string) {
 				continue
 			}
 		}
-		c.OracleFail(id, scope, fmt.Sprintf("op %d: Go-backed run observes `%s`, C-backed run `%s`", i, trunc(g[i], 200), trunc(cc[i], 200)), body)
+		what := fmt.Sprintf("op %d: Go-backed run observes `%s`, C-backed run `%s`", i, trunc(g[i], 200), trunc(cc[i], 200))
+		// Known finding c-int-width (int / uint instantiations: C.int / C.uint are 32 bit wide). The difference is that and nothing
+		// else iff the Go-backed run agrees with the reference semantics of the property AND the C-backed run agrees with the variant
+		// of the reference whose C storages hold 32-bit elements (op by op and in the final contents). Anything else: plain scope.
+		if mode := narrowMode(strings.Fields(body)[1]); mode != 0 {
+			gt, ct := strings.Fields(substRoot(body, "gslice")), strings.Fields(substRoot(body, "cwrap"))
+			if ndCompare(refRun(gt[2:]), strings.Split(halves[0], " ; "), gt) == "" &&
+				ndCompare(refRunMode(ct[2:], mode), strings.Split(halves[1], " ; "), ct) == "" {
+				c.Stats.Count("c_int_width_differences:" + gt[1])
+				c.OracleFail(id, "NDPAIR:c-int-width", "C-backed "+gt[1]+" array holds 32-bit elements: "+what, body)
+				return
+			}
+		}
+		c.OracleFail(id, scope, what, body)
 		return
 	}
 	if len(g) != len(cc) {
@@ -148,5 +161,8 @@ func genNDPair(c *Ctx) {
 		}
 		c.Do(p.body(), derived && write)
 		c.Stats.Count("eltype:" + elt)
+		if p.nWide > 0 {
+			c.Stats.Count("programs_writing_values_outside_32_bits:" + elt)
+		}
 	}
 }
